@@ -59,6 +59,10 @@ def corpus(S, T):
         "logon_4app": [logon, app, u8(3), grp(4), hb(5)],
         "logon_padded": [logon, padded("D", 2, [(11, "pad1"), (55, "MSFT")]), padded("0", 3), padded("D", 4, [(11, "pad2"), (55, "Q")])],
         "logon_rs_noop": [logon, app, rs_noop(3), fr("D", 3, [(11, "after1"), (55, "A")]), fr("D", 4, [(11, "after2"), (55, "B")])],
+        # bursts of short frames (a coalesced resend reply / a busy market): many complete frames per read, the second
+        # one longer than a single read of the reader (4096 bytes)
+        "burst60": [logon] + [(hb(n) if n % 3 == 0 else fr("D", n, [(11, f"b{n}")])) for n in range(2, 62)],
+        "burst110": [logon] + [(hb(n) if n % 4 == 0 else fr("D", n, [(11, f"c{n}")])) for n in range(2, 112)],
     }
 
 
@@ -191,6 +195,8 @@ def build_cases(seed, quick=False):
                 continue
             if quick and gname != "none" and name in ("logon_padded", "logon_rs_noop"):
                 continue
+            if gname != "none" and name.startswith("burst"):
+                continue
             cs[(name, gname)] = Case(S, T, name, frames, gname, g)
     return cs
 
@@ -200,6 +206,23 @@ def partitions(case, quick, full_two_cut):
     # streams added late (counterparty spellings, session-level failure): every single cut and chunking, a narrower
     # two-cut window and no three-cuts in the quick tier
     narrow = quick and case.name in ("logon_padded", "logon_rs_noop")
+    if case.name.startswith("burst"):
+        # long streams: unsplit, every single cut at / next to a frame boundary, every pair of frame boundaries
+        # (quick: pairs with the first cut behind the Logon), fixed-size chunkings up to beyond the reader's own read size
+        yield ()
+        ends = [e for (_s, e, *_r) in case.offs[:-1]]
+        for e in ends:
+            for d in (-1, 0, 1):
+                yield (e + d,)
+        firsts = ends[:1] if quick else ends
+        for a in firsts:
+            for b in ends:
+                if a < b:
+                    yield (a, b)
+        for k in (1, 2, 3, 7, 16, 64, 255, 1024, 4095, 4096, 4097):
+            if k < n:
+                yield tuple(range(k, n, k))
+        return
     yield ()
     for c in range(1, n):
         yield (c,)
@@ -243,7 +266,9 @@ def run(ctx):
     CASES = build_cases(ctx.seed, ctx.quick)
     ctx.rule = ("every partition (0,1,2 cuts exhaustively for small streams; 2 cuts with one near a frame "
                 "boundary for larger ones; all 3-cuts near frame starts; 1-byte and k-byte chunkings) of each "
-                "corpus stream x marker-free garbage between frames, fed to the real socket_read_task; "
+                "corpus stream x marker-free garbage between frames, fed to the real socket_read_task; two bursts of 60 / 110 short "
+                "frames (more than one read of the reader): unsplit, cuts at / next to every frame boundary, pairs of boundaries, "
+                "fixed-size chunkings 1..4097; "
                 "non-trivial = partition with at least one cut strictly inside a frame")
     items = []
     seen = set()
